@@ -71,6 +71,9 @@ def routes(tokens, ue):
         out["slash"] = slashed
     for cname, carrier in (("iter", lambda: iter(list(tokens))), ("generator", lambda: (t for t in tokens)), ("map", lambda: map(str, tokens)), ("tuple", lambda: tuple(tokens)), ("dict-keys", lambda: dict.fromkeys(tokens).keys() if len(set(tokens)) == len(tokens) else list(tokens))):
         out["from_parts(%s)" % cname] = (lambda c=carrier: JSONPointer.from_parts(c(), unicode_escape=ue))
+        if not any("%" in t for t in tokens):
+            # (no token holds a percent sign, so decoding percent escapes changes nothing - but the option is on)
+            out["from_parts(%s, uri_decode)" % cname] = (lambda c=carrier: JSONPointer.from_parts(c(), unicode_escape=ue, uri_decode=True))
     # subclasses of the pointer class (plain, and overriding the documented keys_selector / index limits): pointers are
     # equal exactly when their tokens are, whatever class built them
     if "sub" not in _SUBCLASSES:
